@@ -111,6 +111,8 @@ func init() {
 	register("C14", propC14)
 }
 
+const colVecClause = "column vectors (E13): every vector type whose size is read from a matrix type is sized by Rows (a column of a CxR matrix has R components); only the vector*matrix result in the binary-operator type resolver is sized by Columns"
+
 func propC09(c *Ctx, r *Report) {
 	r.Clauses = append(r.Clauses,
 		"E3 handlewalk over the compaction/reordering/dedup passes that wgsl.LowerWithWarnings runs on every module (functions of package ir reachable from it): every remapper rewrites and every reachability tracer reads every handle field of every node kind, blocks are recursed into completely, rebuilt nodes keep all fields; producer-side fact that image atomics never carry a compare handle")
@@ -124,6 +126,9 @@ func propC09(c *Ctx, r *Report) {
 	c.ruleImageAtomicNoCompare(r)
 	c.runBalance(r, "pairing.scope", scopeBracket)
 	c.runScopePerBlock(r, "scope.perblock", lowerScopeSpec)
+	r.Clauses = append(r.Clauses, colVecClause)
+	c.runColVec(r, "shape.colvec", inPkgs("wgsl", "ir"))
+	r.floor("shape.colvec", 10)
 	r.floor("pairing.pushScope/popScope", 5)
 	r.floor("scope.bodies", 8)
 	r.Clauses = append(r.Clauses, "scope discipline (E7, go/cfg): pushScope/popScope are balanced on every successful path of every lowering function, and every compound-statement body is lowered in a scope opened for it alone (no two sibling bodies share a scope)")
